@@ -1,4 +1,4 @@
-SPECIFICATION Spec
+SPECIFICATION SpecFb
 CONSTANTS
   MaxSteps = 6
   MaxCycles = 3
@@ -7,8 +7,8 @@ CONSTANTS
   EnableRestart = FALSE
   EnableDebugWrites = FALSE
   SrcVals = {0, 255}
-  Dts = {2, 5}
-  CfgSel = "base"
+  Dts = {2}
+  CfgSel = "fb"
 VIEW View
 CHECK_DEADLOCK FALSE
 INVARIANTS
